@@ -67,15 +67,10 @@ pub struct Switches {
 }
 
 impl Switches {
+    /// The switches of findings that are still open. Every finding these switches steered
+    /// around was repaired in /repo, so the "steered" batches now explore the full space too.
     pub fn all_on() -> Self {
-        Switches {
-            no_trailing_mclq: true,
-            no_mcrf: true,
-            no_split_extras: true,
-            mop_blend_needs_mtxp: true,
-            tbc_plus_always_mfbo: true,
-            trim_unbounded: true,
-        }
+        Self::all_off()
     }
     pub fn all_off() -> Self {
         Switches {
